@@ -14,7 +14,7 @@ import sys
 
 sys.path.insert(0, os.path.dirname(os.path.dirname(os.path.abspath(__file__))))
 # A fixed hash seed for the simulator itself (the determinism self-test varies it).
-if os.environ.get("PYTHONHASHSEED") is None:
+if os.environ.get("PYTHONHASHSEED") is None and "jsonschema" not in sys.modules:
     os.environ["PYTHONHASHSEED"] = "0"
     os.execv(sys.executable, [sys.executable] + sys.argv)
 
@@ -33,6 +33,7 @@ def main(argv):
     ap.add_argument("--workers", type=int, default=int(os.environ.get("VERIF_WORKERS", "16")))
     ap.add_argument("--no-evidence", action="store_true")
     ap.add_argument("--quiet-confirm", action="store_true", help=argparse.SUPPRESS)
+    ap.add_argument("--digests-only", action="store_true", help=argparse.SUPPRESS)
     args = ap.parse_args(argv[1:])
     os.chdir(core.VERIF_DIR)
     if args.what in WORLD_A:
@@ -41,6 +42,9 @@ def main(argv):
     if args.what in WORLD_B:
         from worldb import check_b
         return check_b.main(args)
+    if args.what == "setup":
+        from simlib import selftest
+        return selftest.setup(args)
     if args.what == "selftest-determinism":
         from simlib import selftest
         return selftest.determinism(args)
